@@ -364,7 +364,15 @@ func (f *File) startSegmentIfNeeded(b Box, boxStartPos uint64) {
 			segStart = true
 		}
 	case (f.fileDecFlags & DecStartOnMoof) != 0:
+		// Start on every moof, unless the current segment was started by a styp box
+		// (styp gives the boundaries), or the box continues a fragment opened by an emsg box.
 		segStart = true
+		if lastSeg := f.LastSegment(); lastSeg != nil {
+			lastFrag := lastSeg.LastFragment()
+			if lastSeg.Styp != nil || (lastFrag != nil && lastFrag.Moof == nil) {
+				segStart = false
+			}
+		}
 	default:
 		segStart = (segIdx == 0)
 	}
